@@ -47,6 +47,16 @@ pub fn tokens_to_entropy(tokens: &[&str]) -> Result<Vec<u8>, Reject> {
     if bits[ent_bits..] != want[..cs] { return Err(Reject::Checksum); }
     Ok(ent)
 }
+/// last word index whose free (entropy) bits are `free` and whose checksum bits are right
+pub fn complete_last(first: &[usize], free: usize) -> usize {
+    let n = first.len() + 1; let ent_bits = n * 11 * 32 / 33; let cs = n * 11 - ent_bits; let fb = 11 - cs; let free = free & ((1 << fb) - 1);
+    let mut bits = Vec::with_capacity(ent_bits);
+    for i in first { for b in (0..11).rev() { bits.push((i >> b) & 1 == 1); } }
+    for b in (0..fb).rev() { bits.push((free >> b) & 1 == 1); }
+    let ent: Vec<u8> = bits.chunks(8).map(|c| c.iter().fold(0u8, |a, b| (a << 1) | *b as u8)).collect();
+    let h = sha256(&ent);
+    (free << cs) | (h[0] >> (8 - cs)) as usize
+}
 /// For a phrase of valid-list words with a valid count: the last-word indices that make the checksum right.
 pub fn valid_last_words(first: &[usize]) -> Vec<usize> {
     let n = first.len() + 1; let ent_bits = n * 11 * 32 / 33; let cs = n * 11 - ent_bits; let free = 11 - cs;
